@@ -189,3 +189,40 @@ Proof.
   unfold plugin_offered in I. apply filter_In in I. destruct I as [I P]. simpl in P. apply Z.ltb_lt in P.
   exists c. split; [exact I|]. split; [exact P|]. reflexivity.
 Qed.
+
+(* ---------- several plugins at the manager level ---------- *)
+(* Manager.Alloc asks every plugin (cobalt/alloc.go: any refusal refuses the
+   allocation); if each plugin's capacity is the largest count it admits, the
+   merged capacity (the minimum) is the largest count the manager admits *)
+Theorem min_capacity_is_max (c1 c2 k : Z) (acc1 acc2 : Z -> Prop) :
+  (forall j, acc1 j <-> j <= c1) -> (forall j, acc2 j <-> j <= c2) ->
+  (acc1 k /\ acc2 k <-> k <= Z.min c1 c2).
+Proof. intros H1 H2. rewrite H1, H2. lia. Qed.
+
+(* every answer holds positive capacities only (what cpumem does: it filters
+   Capacity > 0) => so does the merged result *)
+Theorem positive_in_positive_out (answers : list famap) n (i : fndc) :
+  answers <> [] ->
+  (forall a k j, In a answers -> Merge.lookup k a = Some j -> 0 < n_cap j) ->
+  Merge.lookup n (fst (gndc_f answers)) = Some i -> 0 < n_cap i.
+Proof.
+  intros NE POS. rewrite aggregate_f64 by exact NE.
+  destruct (infos_of n answers) as [[|i1 rest]|] eqn:I; try discriminate.
+  intro H. injection H as <-. cbn [n_cap].
+  assert (P : forall j, In j (i1 :: rest) -> 0 < n_cap j).
+  { clear -I POS. revert i1 rest I. induction answers as [|a t IH]; intros i1 rest I; simpl in I; [discriminate|].
+    destruct (Merge.lookup n a) as [j0|] eqn:L; [|discriminate].
+    destruct (infos_of n t) as [l|] eqn:E; [|discriminate]. injection I as <- <-.
+    intros j [<-|Hj]; [apply (POS a n); simpl; auto|].
+    destruct l as [|j1 l']; [destruct Hj|].
+    apply (IH (fun a' k' j' Ha => POS a' k' j' (or_intror Ha)) j1 l' eq_refl j Hj). }
+  destruct (mincap_is_min i1 rest) as [_ [j [Hj ->]]]. apply P. exact Hj.
+Qed.
+
+(* but the manager itself does not filter: a plugin entry with capacity 0 makes
+   the node offered with capacity 0 *)
+Lemma zero_entry_is_offered :
+  let a := [("n"%string, mkNdc 5 (fb 0) (fb 0) (f_of_Z 1))] in
+  let b := [("n"%string, mkNdc 0 (fb 0) (fb 0) (f_of_Z 1))] in
+  option_map n_cap (Merge.lookup "n"%string (fst (gndc_f [a; b]))) = Some 0.
+Proof. vm_compute. reflexivity. Qed.
